@@ -9,6 +9,7 @@ ops (one output line each):
   decode <mfs> <hex>                    -> ok <type> <flags> <sid> <consumed> <summary> | incomplete | err <code>
   body <type> <flags> <sid> <len> <hex> -> ok <remaining> <summary> | eof | err <code>
   settings_frame <flags> <hex>          -> ok <remaining> <summary> | eof | err <code>
+  first_settings <hex>                  -> the first SETTINGS payload of a connection, as h2.rs parses it
   gen_header <cap> <len> <type> <flags> <sid>
   gen_settings <cap> <v1> .. <v8>       (booleans as 0/1)
   gen_rst <cap> <sid> <code>
@@ -105,6 +106,10 @@ def stepLine (st : St) (line : String) : St × List String :=
     | some fl, some bs =>
       (st, [presStr (settingsFrame bs { len := bs.length, ftype := .settings, flags := fl, sid := 0 })])
     | _, _ => (st, ["bad-op"])
+  | ["first_settings", hex] =>
+    match hexToBytes hex with
+    | some bs => (st, [presStr (firstSettings bs)])
+    | none => (st, ["bad-op"])
   | ["gen_header", cap, len, t, flags, sid] =>
     match nats [cap, len, t, flags, sid] with
     | some [cap, len, t, flags, sid] =>
